@@ -46,8 +46,8 @@ PLANS = {
         "model_checking",
         ["present.ok", "present.exact", "present.weak", "present.jwt", "present.shape", "present.kb.none", "present.kb"],
         [RT, SH],
-        [REPLAY_RT_Q, REPLAY_SH, {"driver": "rich", "args": {"n": 700, "depth": 5, "arbsel": 0.4}}, {"driver": "history", "args": {"random": 120}}, {"driver": "repotests"}],
-        [REPLAY_RT_T, REPLAY_SH, {"driver": "rich", "args": {"n": 20000, "depth": 8, "arbsel": 0.4}}, {"driver": "history", "args": {"random": 3000}}, {"driver": "repotests"}],
+        [REPLAY_RT_Q, REPLAY_SH, {"driver": "rich", "args": {"n": 700, "depth": 5, "arbsel": 0.4, "rekb": 1, "xfmt": 1}}, {"driver": "history", "args": {"random": 120}}, {"driver": "repotests"}],
+        [REPLAY_RT_T, REPLAY_SH, {"driver": "rich", "args": {"n": 20000, "depth": 8, "arbsel": 0.4, "rekb": 1, "xfmt": 1}}, {"driver": "history", "args": {"random": 3000}}, {"driver": "repotests"}],
         required={"present.exact": 400, "present.weak": 500, "present.kb": 50},
         nontrivial_event="Present",
         rule="cases = Present events: TLC-generated type-consistent selections (every prefix length, one element too many) and seeded "
@@ -112,7 +112,7 @@ PLANS.update({
     ),
     "C04": P(
         "model_checking",
-        ["verify.lenient.kb", "verify.lenient.args", "verify.accept", "present.kb", "present.kb.none", "scn.expect.reject", "scn.expect.claims", "scn.model.agrees"],
+        ["verify.lenient.kb", "verify.lenient.args", "verify.accept", "present.ok", "present.kb", "present.kb.none", "scn.expect.reject", "scn.expect.claims", "scn.model.agrees"],
         [KB_WIDE, KB_DEEP],
         [{"driver": "replay", "scn": "kb_wide", "args": {"n": 600, "matrix": 0}}, {"driver": "attack", "args": {"n": 12, "family": "kb", "stride": 25}},
          {"driver": "rich", "args": {"n": 400, "depth": 3, "arbsel": 0, "kb": 1, "xfmt": 1}}],
